@@ -74,7 +74,15 @@ func pct(t *rapid.T, label string, p int) bool {
 	return rapid.IntRange(0, 99).Draw(t, label) < p
 }
 
+// lineRes: all generated ask sizes are multiples of {memory:1 vcore:1} (listed known finding of C19: partially comparable
+// pending vectors), so that any two pending totals are comparable.
+var lineRes bool
+
 func genRes(t *rapid.T, label string, lo, hi int64, sparse bool) Res {
+	if lineRes && (strings.HasPrefix(label, "ask") || strings.HasPrefix(label, "tg-res")) {
+		v := rapid.Int64Range(max(lo, 1), hi).Draw(t, label+"-line")
+		return Res{"memory": v, "vcore": v}
+	}
 	out := Res{}
 	for _, k := range ResTypes {
 		if k == "gpu" {
@@ -98,7 +106,17 @@ func genRes(t *rapid.T, label string, lo, hi int64, sparse bool) Res {
 func (w *World) enabled(kind string) bool {
 	s := w.Shim
 	switch kind {
-	case OpUpdNode, OpDrainNode, OpUndrainNode, OpDecomNode, OpForeign:
+	case OpForeign, OpForeignDel:
+		if Excluded("foreign-alloc-stale-node-score") {
+			// known finding: foreign allocation changes do not re-sort the node
+			w.Excl("foreign-alloc-stale-node-score")
+			return false
+		}
+		if kind == OpForeignDel {
+			return len(s.Foreign) > 0
+		}
+		return len(s.LiveNodes()) > 0
+	case OpUpdNode, OpDrainNode, OpUndrainNode, OpDecomNode:
 		return len(s.LiveNodes()) > 0
 	case OpRemoveApp:
 		return len(s.AcceptedApps()) > 0
@@ -112,8 +130,6 @@ func (w *World) enabled(kind string) bool {
 		return len(s.KeysIn(KOutstanding))+len(s.KeysIn(KBound)) > 0
 	case OpConfirm, OpDropConfirm:
 		return len(s.Pending) > 0
-	case OpForeignDel:
-		return len(s.Foreign) > 0
 	case OpFirePh:
 		for _, a := range w.Last.Apps {
 			if a.PhTimerArmed {
@@ -228,8 +244,15 @@ func (w *World) genKind(t *rapid.T, kind string, p *Profile) Op {
 		op.Kind = OpUpdAsk
 		op.Node = ""
 		op.Res = Res{}
-		for rk, rv := range k.Res {
-			op.Res[rk] = max(1, rv+rapid.Int64Range(-2, 3).Draw(t, "delta-"+rk))
+		if lineRes {
+			d := rapid.Int64Range(-2, 3).Draw(t, "delta-line")
+			for rk, rv := range k.Res {
+				op.Res[rk] = max(1, rv+d)
+			}
+		} else {
+			for rk, rv := range k.Res {
+				op.Res[rk] = max(1, rv+rapid.Int64Range(-2, 3).Draw(t, "delta-"+rk))
+			}
 		}
 	case OpReportBound:
 		// the shim says: this pod already runs on that node (recovery, external placement)
@@ -468,6 +491,10 @@ func (w *World) genAddAsk(t *rapid.T, p *Profile) Op {
 	app := s.Apps[op.App]
 	op.Res = genRes(t, "ask", p.AskLo, p.AskHi, true)
 	op.Prio = int32(rapid.IntRange(-1, 3).Draw(t, "prio"))
+	if pct(t, "prio-extreme", 6) {
+		// priority classes far apart (system critical, negative batch classes, the int32 extremes)
+		op.Prio = rapid.SampledFrom([]int32{2000000000, 2000001000, -1000000000, 1000000000, 2147483647, -2147483648}).Draw(t, "prio-extreme-v")
+	}
 	if len(app.Spec.TGs) > 0 {
 		tg := pick(t, "tg", app.Spec.TGs)
 		switch rapid.IntRange(0, 9).Draw(t, "gang-kind") {
@@ -478,7 +505,11 @@ func (w *World) genAddAsk(t *rapid.T, p *Profile) Op {
 			// a real ask for the task group: same size, smaller, or larger on one type
 			op.TaskGroup = tg.Name
 			op.Res = tg.Res.Clone()
-			switch rapid.IntRange(0, 5).Draw(t, "real-size") {
+			realSize := rapid.IntRange(0, 5).Draw(t, "real-size")
+			if lineRes && realSize >= 1 && realSize <= 2 {
+				realSize = 5 // same size as the placeholder: stays on the line
+			}
+			switch realSize {
 			case 0:
 				for k := range op.Res {
 					op.Res[k] = max(1, op.Res[k]-1)
